@@ -51,3 +51,91 @@ package cache
 //@   ensures "closed" [C17] implies(d.closed, info == nil && closedErr(err, d) && world() == old(world()))
 //@   ensures "same-as-fs" [C10] implies(!d.closed, info == old(ret("hackpadfs.Stat", 0, hackpadfs.FS(d.fs), d.name)) && err == old(ret("hackpadfs.Stat", 1, hackpadfs.FS(d.fs), d.name)))
 //@   nopanic
+
+// ---- the cache file system (fs.go) ----
+// Source and cache store are black boxes behind the deterministic FS / File interface contracts (results are
+// uninterpreted functions of a world token). What is proved is the control discipline C10/C11 ask for.
+
+//@ syncmap ReadOnlyFS.cacheInfo key string val hackpadfs.FileInfo
+//@ syncmap ReadOnlyFS.cached key string val interface{}
+
+//@ spec roOK(fs *ReadOnlyFS) := fs != nil && fs.sourceFS != nil && fs.cacheFS != nil && fs.options.RetainData != nil
+//@ spec complete(fs *ReadOnlyFS, name string) := in(name, dom(fs.cached))
+//@ spec known(fs *ReadOnlyFS, name string) := in(name, dom(fs.cacheInfo))
+
+//@ extern io.CopyBuffer(dst io.Writer, src io.Reader, buf []byte) (written int64, err error)
+//@   deterministic
+//@   detargs dst src
+
+
+// copyFile: succeeds only if every step of the copy did: the parent directories, the create, the copy itself and the
+// Close of the destination (where buffered writes may fail).
+//@ spec cfW1(w int, fs *ReadOnlyFS, name string) := worldAfterW("hackpadfs.MkdirAll", w, hackpadfs.FS(fs.cacheFS), pdir(name), 0700)
+//@ spec cfMkErr(w int, fs *ReadOnlyFS, name string) := retW("hackpadfs.MkdirAll", 0, w, hackpadfs.FS(fs.cacheFS), pdir(name), 0700)
+//@ spec cfMode(w int, fs *ReadOnlyFS, name string, info hackpadfs.FileInfo) := retW("hackpadfs.(FileInfo).Mode", 0, cfW1(w, fs, name), info)
+//@ spec cfFlags() := hackpadfs.FlagWriteOnly | hackpadfs.FlagCreate | hackpadfs.FlagTruncate
+//@ spec cfDest(w int, fs *ReadOnlyFS, name string, info hackpadfs.FileInfo) := retW("hackpadfs.(OpenFileFS).OpenFile", 0, cfW1(w, fs, name), hackpadfs.OpenFileFS(fs.cacheFS), name, cfFlags(), cfMode(w, fs, name, info))
+//@ spec cfOpenErr(w int, fs *ReadOnlyFS, name string, info hackpadfs.FileInfo) := retW("hackpadfs.(OpenFileFS).OpenFile", 1, cfW1(w, fs, name), hackpadfs.OpenFileFS(fs.cacheFS), name, cfFlags(), cfMode(w, fs, name, info))
+//@ spec cfW2(w int, fs *ReadOnlyFS, name string, info hackpadfs.FileInfo) := worldAfterW("hackpadfs.(OpenFileFS).OpenFile", cfW1(w, fs, name), hackpadfs.OpenFileFS(fs.cacheFS), name, cfFlags(), cfMode(w, fs, name, info))
+//@ spec cfCopyErr(w int, fs *ReadOnlyFS, name string, f hackpadfs.File, info hackpadfs.FileInfo) := retW("io.CopyBuffer", 1, cfW2(w, fs, name, info), io.Writer(cfDest(w, fs, name, info)), io.Reader(f), nil)
+//@ spec cfW3(w int, fs *ReadOnlyFS, name string, f hackpadfs.File, info hackpadfs.FileInfo) := worldAfterW("io.CopyBuffer", cfW2(w, fs, name, info), io.Writer(cfDest(w, fs, name, info)), io.Reader(f), nil)
+//@ spec cfCloseErr(w int, fs *ReadOnlyFS, name string, f hackpadfs.File, info hackpadfs.FileInfo) := retW("hackpadfs.(File).Close", 0, cfW3(w, fs, name, f, info), cfDest(w, fs, name, info))
+//@ spec copyOK(w int, fs *ReadOnlyFS, name string, f hackpadfs.File, info hackpadfs.FileInfo) := cfMkErr(w, fs, name) == nil && cfOpenErr(w, fs, name, info) == nil &&
+//@        implements(cfDest(w, fs, name, info), io.Writer) && cfCopyErr(w, fs, name, f, info) == nil && cfCloseErr(w, fs, name, f, info) == nil
+
+//@ func (fs *ReadOnlyFS) copyFile(name string, f hackpadfs.File, info hackpadfs.FileInfo) (err error)
+//@   props C11 C10 C14
+//@   requires roOK(fs) && f != nil && info != nil
+//@   modifies world()
+//@   ensures "complete-or-error" [C11] iff(err == nil, old(copyOK(world(), fs, name, f, info)))
+//@   ensures "open-error" [C11] implies(old(cfMkErr(world(), fs, name)) == nil && old(cfOpenErr(world(), fs, name, info)) != nil, err == old(cfOpenErr(world(), fs, name, info)))
+//@   ensures "copy-error" [C11] implies(old(cfMkErr(world(), fs, name)) == nil && old(cfOpenErr(world(), fs, name, info)) == nil && implements(old(cfDest(world(), fs, name, info)), io.Writer) &&
+//@                     old(cfCopyErr(world(), fs, name, f, info)) != nil, err == old(cfCopyErr(world(), fs, name, f, info)))
+//@   nopanic
+
+// Stat: the first successful Stat of a name is remembered and served from then on.
+//@ spec srcOpenF(w int, fs *ReadOnlyFS, name string) := retW("hackpadfs.(FS).Open", 0, w, fs.sourceFS, name)
+//@ spec srcOpenErr(w int, fs *ReadOnlyFS, name string) := retW("hackpadfs.(FS).Open", 1, w, fs.sourceFS, name)
+//@ spec srcOpenW(w int, fs *ReadOnlyFS, name string) := worldAfterW("hackpadfs.(FS).Open", w, fs.sourceFS, name)
+//@ spec infoSame(fs *ReadOnlyFS) := forall(k, string, in(k, dom(fs.cacheInfo)) == old(in(k, dom(fs.cacheInfo))) && fs.cacheInfo[k] == old(fs.cacheInfo[k]))
+//@ spec infoSameExcept(fs *ReadOnlyFS, name string) := forall(k, string, implies(k != name, in(k, dom(fs.cacheInfo)) == old(in(k, dom(fs.cacheInfo))) && fs.cacheInfo[k] == old(fs.cacheInfo[k])))
+
+//@ func (fs *ReadOnlyFS) Stat(name string) (info hackpadfs.FileInfo, err error)
+//@   props C10 C14 C05
+//@   requires roOK(fs)
+//@   modifies world(), mapOf(fs.cacheInfo)
+//@   ensures "known" [C10] implies(old(known(fs, name)), info == old(fs.cacheInfo[name]) && err == nil && world() == old(world()) && infoSame(fs))
+//@   ensures "open-error" [C10 C14] implies(!old(known(fs, name)) && old(srcOpenErr(world(), fs, name)) != nil, info == nil && err == old(srcOpenErr(world(), fs, name)) && infoSame(fs))
+//@   ensures "from-source" [C10] implies(!old(known(fs, name)) && old(srcOpenErr(world(), fs, name)) == nil,
+//@                     info == old(retW("hackpadfs.(File).Stat", 0, srcOpenW(world(), fs, name), srcOpenF(world(), fs, name))) || err != nil)
+//@   ensures "stat-error" [C14] implies(!old(known(fs, name)) && old(srcOpenErr(world(), fs, name)) == nil && old(retW("hackpadfs.(File).Stat", 1, srcOpenW(world(), fs, name), srcOpenF(world(), fs, name))) != nil,
+//@                     info == nil && err != nil && infoSame(fs))
+//@   ensures "remembered" [C10] implies(err == nil, known(fs, name) && fs.cacheInfo[name] == info && infoSameExcept(fs, name) && info != nil)
+//@   ensures "not-remembered" implies(err != nil, infoSame(fs) && info == nil)
+//@   nopanic
+
+// Open: a file is served from the cache store only if its copy completed earlier (the 'cached' set), and a name enters
+// that set only after copyFile returned nil for it.
+//@ spec completeSame(fs *ReadOnlyFS) := forall(k, string, in(k, dom(fs.cached)) == old(in(k, dom(fs.cached))))
+//@ spec completeGrowsBy(fs *ReadOnlyFS, name string) := forall(k, string, implies(k != name, in(k, dom(fs.cached)) == old(in(k, dom(fs.cached))))) && implies(old(complete(fs, name)), complete(fs, name))
+//@ spec knownInfo(fs *ReadOnlyFS, name string) := fs.cacheInfo[name]
+//@ spec infoDir(w int, info hackpadfs.FileInfo) := retW("hackpadfs.(FileInfo).IsDir", 0, w, info)
+
+//@ func (fs *ReadOnlyFS) Open(name string) (f hackpadfs.File, err error)
+//@   props C10 C11 C16 C17 C14
+//@   requires roOK(fs)
+//@   modifies world(), mapOf(fs.cacheInfo), mapOf(fs.cached)
+//@   ensures "stat-error" implies(!old(known(fs, name)) && old(srcOpenErr(world(), fs, name)) != nil, f == nil && err == old(srcOpenErr(world(), fs, name)) && completeSame(fs))
+//@   ensures "directory" [C16 C17] implies(old(known(fs, name)) && old(infoDir(world(), knownInfo(fs, name))), err == nil && isType(f, *dir) && f.(*dir) != nil && fresh(f.(*dir)) &&
+//@                     f.(*dir).fs == fs && f.(*dir).name == name && f.(*dir).offset == 0 && !f.(*dir).closed && world() == old(world()) && completeSame(fs))
+//@   ensures "source-fails-not-complete" [C11] implies(old(known(fs, name)) && !old(infoDir(world(), knownInfo(fs, name))) && !old(complete(fs, name)) && old(srcOpenErr(world(), fs, name)) != nil,
+//@                     f == nil && err == old(srcOpenErr(world(), fs, name)) && completeSame(fs))
+//@   ensures "marked-only-after-complete-copy" [C11] implies(old(known(fs, name)) && !old(complete(fs, name)) && complete(fs, name),
+//@                     old(copyOK(srcOpenW(world(), fs, name), fs, name, srcOpenF(world(), fs, name), knownInfo(fs, name))))
+//@   ensures "copy-fails" [C11] implies(old(known(fs, name)) && !old(infoDir(world(), knownInfo(fs, name))) && !old(complete(fs, name)) && old(srcOpenErr(world(), fs, name)) == nil &&
+//@                     old(apply(fs.options.RetainData, name, knownInfo(fs, name))) && !old(copyOK(srcOpenW(world(), fs, name), fs, name, srcOpenF(world(), fs, name), knownInfo(fs, name))),
+//@                     f == nil && err != nil && !complete(fs, name))
+//@   ensures "not-retained" [C10] implies(old(known(fs, name)) && !old(infoDir(world(), knownInfo(fs, name))) && !old(complete(fs, name)) && old(srcOpenErr(world(), fs, name)) == nil &&
+//@                     !old(apply(fs.options.RetainData, name, knownInfo(fs, name))), f == old(srcOpenF(world(), fs, name)) && err == nil && completeSame(fs))
+//@   ensures "monotone" [C11] completeGrowsBy(fs, name)
+//@   nopanic
